@@ -143,7 +143,7 @@ MISUSE = ['cross_st', 'cross_add', 'cross_mul_rvar', 'cross_add_rvar', 'foreign_
           'read_unsolved', 'read_failed', 'ambiguity_after_constraints', 'foreign_adapt', 'foreign_set_minmax',
           'foreign_amb_forall_explin', 'foreign_amb_forall_exppw', 'cross_concat', 'concat_dvar_rvar', 'foreign_adapt_ldr',
           'cross_maxof', 'cross_matmul_rvar', 'cross_st_cone', 'cross_st_piecewise', 'foreign_second_in_list', 'call_unsolved',
-          'cross_kldiv', 'cross_convex', 'foreign_scen_adapt']
+          'cross_kldiv', 'cross_convex', 'foreign_scen_adapt', 'second_objective_special']
 
 
 def gen_case(seed, cfg):
@@ -260,7 +260,7 @@ def gen_misuse(rng, models, state, only=None, first=None):
         # kinds with narrow preconditions first, rarest first (a random cut keeps the head of the list from monopolising)
         rare = ['foreign_amb_forall', 'foreign_amb_forall_exppw', 'foreign_amb_forall_explin', 'foreign_prob', 'foreign_amb_objective',
                 'foreign_set_forall', 'foreign_adapt_ldr', 'foreign_expt', 'foreign_second_in_list', 'foreign_set_minmax',
-                'foreign_scen_adapt', 'cross_kldiv', 'cross_convex', 'ambiguity_after_constraints', 'foreign_adapt', 'foreign_supp', 'cross_mul_rvar', 'cross_add_rvar',
+                'foreign_scen_adapt', 'second_objective_special', 'cross_kldiv', 'cross_convex', 'ambiguity_after_constraints', 'foreign_adapt', 'foreign_supp', 'cross_mul_rvar', 'cross_add_rvar',
                 'concat_dvar_rvar', 'cross_matmul_rvar', 'cross_maxof', 'second_objective', 'cross_st_piecewise']
         cut = rng.randrange(len(rare))
         rare = rare[cut:] + rare[:cut] if rng.random() < 0.5 else rare
@@ -390,7 +390,7 @@ def gen_misuse(rng, models, state, only=None, first=None):
                 zb = pb + rng.choice(b_rv)
                 return [dict(mk, op='obj', m=pa + 'm', how=rng.choice(['minmax', 'maxmin']), e=['sum', ['v', pa + rng.choice(a_dv)]],
                              set=[['<=', ['f', 'abs', ['v', zb]], ['c', 1.0]]])]
-            if kind == 'second_objective' and sa['obj'] and a_dv:
+            if kind in ('second_objective', 'second_objective_special') and sa['obj'] and a_dv:
                 hows = {'lp': ['min', 'max'], 'socp': ['min', 'max'], 'gcp': ['min', 'max'], 'ro': ['min', 'max', 'minmax', 'maxmin'], 'dro': ['min', 'max', 'minsup', 'maxinf']}[A['kind']]
                 how = rng.choice(hows)
                 sv_ = ['sum', ['v', pa + rng.choice(a_dv)]]
@@ -398,6 +398,8 @@ def gen_misuse(rng, models, state, only=None, first=None):
                 forms = [sv_, sv_, ['c', 3.0], ['maxof', sv_, ['c', 0.0]], ['maxof', sv_, ['*', ['c', 2.0], sv_]]]
                 if A['kind'] not in ('lp',) and how in ('min', 'minmax', 'minsup'):
                     forms.append(['f', 'abs', sv_])
+                if kind == 'second_objective_special':
+                    forms = forms[2:]               # a number, piecewise or convex objective: other code paths than an affine one
                 o = dict(mk, op='obj', m=pa + 'm', how=how, e=rng.choice(forms))
                 if how in ('minmax', 'maxmin'):
                     o['set'] = []
